@@ -372,7 +372,8 @@ CLAIMED["C09"] = dict(
          "text: what eat()/a character reference in progress hold back, then the queue), under an invariant that a fresh "
          "tokenizer satisfies and every step preserves; hence at every suspension current_line = 1 + breaks of all text fed "
          "so far, under any chunking (C09_line_after_input), and at every step line + breaks ahead = 1 + breaks of the "
-         "whole text (C09_line_at_any_step); tokens are stamped with current_line and no transition changes it. The table "
+         "whole text (C09_line_at_any_step); every token a step delivers is stamped with the line that step ends on "
+         "(C09_tokens_of_a_step, a whole-table lemma), i.e. with 1 + the line breaks consumed when it is emitted. The table "
          "fact 'no entity name contains a line break' is kernel-checked over the regenerated table. Tokenizer::end never "
          "moves the line (C09_eof_line: the EOF token carries 1 + breaks of the whole input). Outside the model: the tree "
          "builder's forwarding (set_current_line; compared by the tb engine) and the byte-level SIMD popcount; the "
